@@ -21,7 +21,6 @@ NOTES = ("Every check is solver-based (DESIGN.md): Engine K = Kani/CBMC over the
 NOT_APPLICABLE = {
     "C01": "not built yet (Engine S, see DESIGN.md section 5)",
     "C02": "not built yet (Engine S, see DESIGN.md section 5)",
-    "C03": "not built yet",
     "C04": "not built yet",
     "C07": "not built yet",
     "C08": "not built yet",
@@ -45,6 +44,13 @@ def kprop(level_text, level_note, assumptions=None, engines=("kani",), trusted=N
 
 
 PROPS = {
+    "C03": kprop(
+        "Bit-precise bounded model checking of the bounds contract for every colour type (26 types x f32/f64 (+u8), plain and "
+        "Alpha-wrapped): all finite component combinations are symbolic at once; clamp => within bounds, identity on in-bounds, "
+        "idempotence, clamp_assign agreement, is_within_bounds <=> min/max accessors, slices up to length 3, and the FromColor / "
+        "TryFromColor blanket impls on four cheap conversion pairs.",
+        "Trusted: Kani/CBMC/cadical. NaN/inf components are outside the property. FromColor/TryFromColor are blanket impls (one "
+        "piece of code for all pairs); they are instantiated on Hsv<->Hwb and Xyz<->Yxy."),
     "C05": kprop(
         "Bit-precise bounded model checking of the integer fast paths: for each encoding the real from_linear/into_linear impls and "
         "the real lookup tables are executed symbolically over ALL f32 (2^32) / f64 (2^64) inputs and all codes: totality and "
